@@ -183,7 +183,8 @@ PROPS = {
         "level_note": "trusted: the ledger (two maps and two maxima); the split clause identifies a split by (source, target, flag, innovation of the carrier's split gene); parallel runs are covered by C16 for the first two clauses only",
         "rule": "G-epochs scenarios with structural rates biased upwards, recurrent-only probability 0-0.7, small genomes (collisions of identical innovations are frequent), spawn/random/read constructors; a turnover is non-trivial when it issued new innovation numbers; distinct by (epoch, max innovation, max node id, #species, rec+non-rec pair present)",
         "assumptions": ["sequential executor"],
-        "expect_classes": {"epochs": ["innovation shared by several organisms of one generation", "same split performed by several organisms of one generation", "recurrent and non-recurrent link on the same endpoints", "same link under different numbers in different generations", "turnover issuing new innovation numbers"]},
+        "expect_classes": {"epochs": ["innovation shared by several organisms of one generation", "same split performed by several organisms of one generation", "recurrent and non-recurrent link on the same endpoints", "same link under different numbers in different generations", "turnover issuing new innovation numbers"],
+                           "history": ["same link invented by several genomes of one generation", "same split performed by several genomes of one generation", "link of an earlier generation invented again under a new number", "end of generation"]},
     },
     "C10": {
         "run": "^TestC10",
